@@ -40,7 +40,7 @@ PRE, DEV = 0, 1
 class VThread:
   __slots__ = ('tid', 'name', 'sem', 'real', 'state', 'pred', 'deadline',
                'timed_out', 'yielded', 'service', 'exc', 'target', 'nobj',
-               'what', 'sleeping', 'pyobj', 'result', 'uid', 'nchild', 'vc', 'spin', 'spinning', 'last_run')
+               'what', 'sleeping', 'pyobj', 'result', 'uid', 'nchild', 'vc', 'spin', 'spinning', 'last_run', 'focus_line')
 
   def __init__(self, tid, name, target):
     self.tid, self.name, self.target = tid, name, target
@@ -64,6 +64,7 @@ class VThread:
     self.spin = {}
     self.spinning = False
     self.last_run = 0
+    self.focus_line = None
 
   def __repr__(self):
     return f'<T{self.tid} {self.name} {self.state} {self.what}>'
@@ -103,7 +104,7 @@ class Scheduler:
 
   def __init__(self, prefix=(), *, mode='preempt', max_steps=20000,
                max_clock=3.0e4, keep_events=False, snapshot=None,
-               tick=None, cache=None):
+               tick=None, cache=None, pause_focus=None):
     self.prefix = list(prefix)
     self.mode = mode              # 'preempt' | 'delay'
     if tick:
@@ -127,6 +128,7 @@ class Scheduler:
     self.timers = []              # (deadline, callback) fired at quiescence
     self.on_step = None
     self.cache = cache        # happens-before cache of expanded nodes
+    self.pause_focus = frozenset(pause_focus or ())
     self.hb = True
     self.trace_hash = 0
     self._lw = {}    # object -> vc of last write
@@ -319,6 +321,8 @@ class Scheduler:
     """A preemption opportunity before a visible operation."""
     self._check_alive()
     cur = self.current
+    if self.pause_focus:
+      self._maybe_pause(cur)
     self._event(cur, kind, obj)
     # busy-wait detection: a thread that passes the same point again and again
     # while nobody else takes a step is polling without sleeping; under any
@@ -337,6 +341,25 @@ class Scheduler:
         cur.yielded = True
     nxt = self._pick(cur=cur, kind=kind)
     self._switch(cur, nxt)
+
+  def _maybe_pause(self, cur):
+    """Environment choice "this thread is slow here": once per executed line
+    of a focus function the thread may pause until every other thread has
+    run as far as it can (a timed block that expires at quiescence)."""
+    f = sys._getframe(2)
+    line = None
+    depth = 0
+    while f is not None and depth < 25:
+      if f.f_code.co_name in self.pause_focus and '/vmc/' not in f.f_code.co_filename:
+        line = (f.f_code.co_name, f.f_lineno)
+        break
+      f = f.f_back
+      depth += 1
+    if line is None or line == cur.focus_line:
+      return
+    cur.focus_line = line
+    if self.choose(2, kind='pause:%s:%d' % line, budget=DEV) == 1:
+      self.block(_false, deadline=self.clock + 0.001, kind='pause', obj='')
 
   def note(self, kind, obj=''):
     """A visible operation that is not a preemption opportunity (release,
@@ -523,6 +546,10 @@ class Scheduler:
 
 def _true():
   return True
+
+
+def _false():
+  return False
 
 
 def _wait_key(t):
